@@ -104,6 +104,34 @@ func (e *Exec) callKey(fr *Frame, st *State, key string, fn *ssa.Function, bind 
 			}
 		}
 	}
+	if fn != nil && fn.Pkg != nil && fn.Parent() == nil && fn.Signature.Recv() == nil {
+		if p := e.w.Pkgs[fn.Pkg.Pkg.Path()]; p != nil {
+			// ghost prelude / user ghost functions called from lemma code
+			if g, ok := p.ghostDecl[fn.Name()]; ok && g.Expr != nil {
+				nb := map[string]Val{}
+				for i, pn := range g.Params {
+					if i < len(args) {
+						nb[pn] = args[i]
+					}
+				}
+				env := &SpecEnv{e: e, fr: fr, st: st, old: fr.entry, vars: map[string]Val{}, oldVars: map[string]Val{}, bound: nb, pkg: g.Pkg}
+				r := e.sx(env, g.Expr)
+				return Val{T: e.mat(env, r), Typ: sig.Results().At(0).Type()}
+			}
+			if e.w.Fset.Position(fn.Pos()).Filename == e.w.Fset.Position(p.GhostFile.Pos()).Filename {
+				switch fn.Name() {
+				case "assert":
+					e.sc.oblig(st.reach, args[0].T, fmt.Sprintf("%s#assert.%d", e.unit, e.nextCount("assert")), "assert", "lemma assertion", e.pos(pos))
+					e.sc.assume(st.reach, args[0].T)
+					return Val{T: "0"}
+				case "assume":
+					e.sc.assume(st.reach, args[0].T)
+					e.sc.used[fmt.Sprintf("lemma assumption at %s (states the scenario the lemma is about)", e.pos(pos))] = true
+					return Val{T: "0"}
+				}
+			}
+		}
+	}
 	if fc := e.w.Contract[key]; fc != nil {
 		if fc.Flags["inline"] != "" && fn != nil && len(fn.Blocks) > 0 {
 			return e.inlineCall(fr, st, fn, bind, args, pos)
@@ -495,15 +523,22 @@ func (e *Exec) resolveModItem(env *SpecEnv, c *Clause) []modTarget {
 				mt := types.Unalias(v.Typ).Underlying().(*types.Map)
 				mv, md, mc := e.mapHeaps(mt)
 				return []modTarget{{heap: mv, ref: v.T}, {heap: md, ref: v.T}, {heap: mc, ref: v.T}}
-			case "conn":
+			case "conn", "connin", "connout":
+				kind := id.Name
 				v := e.sx(env, inner.Args[0])
-				id, _ := e.toIntArg(env, v)
+				cid, _ := e.toIntArg(env, v)
 				var out []modTarget
-				for _, g := range []string{"G_inpos", "G_outlen", "G_outwrites"} {
-					out = append(out, modTarget{heap: e.heapMap(g, "(Array Int Int)"), ref: id})
+				if kind != "connout" {
+					out = append(out, modTarget{heap: e.heapMap("G_inpos", "(Array Int Int)"), ref: cid})
 				}
-				out = append(out, modTarget{heap: e.heapMap("G_out", "(Array Int (Array Int Int))"), ref: id})
-				out = append(out, modTarget{heap: e.heapMap("G_closedconn", "(Array Int Bool)"), ref: id})
+				if kind != "connin" {
+					out = append(out, modTarget{heap: e.heapMap("G_outlen", "(Array Int Int)"), ref: cid})
+					out = append(out, modTarget{heap: e.heapMap("G_outwrites", "(Array Int Int)"), ref: cid})
+					out = append(out, modTarget{heap: e.heapMap("G_out", "(Array Int (Array Int Int))"), ref: cid})
+				}
+				if kind == "conn" {
+					out = append(out, modTarget{heap: e.heapMap("G_closedconn", "(Array Int Bool)"), ref: cid})
+				}
 				return out
 			case "lockstate":
 				return []modTarget{{heap: "G_held", ref: e.lockID(env, inner.Args[0])}}
@@ -714,6 +749,10 @@ func (e *Exec) staticModMaps(c *Clause) []string {
 			case "mapof":
 				mv, md, mc := e.mapHeaps(types.Unalias(t).Underlying().(*types.Map))
 				return []string{mv, md, mc}
+			case "connin":
+				return []string{e.heapMap("G_inpos", "(Array Int Int)")}
+			case "connout":
+				return []string{e.heapMap("G_outlen", "(Array Int Int)"), e.heapMap("G_outwrites", "(Array Int Int)"), e.heapMap("G_out", "(Array Int (Array Int Int))")}
 			case "conn":
 				return []string{e.heapMap("G_inpos", "(Array Int Int)"), e.heapMap("G_outlen", "(Array Int Int)"), e.heapMap("G_outwrites", "(Array Int Int)"), e.heapMap("G_out", "(Array Int (Array Int Int))"), e.heapMap("G_closedconn", "(Array Int Bool)")}
 			case "lockstate":
